@@ -59,7 +59,9 @@ def bounds(tier):
     return dict(value_level="all secrets of length 1..%d over the secret alphabet; shaped $1$ (salt 1..4), $6$, $9$ inputs with symbolic bodies" % (4 if tier == "quick" else 6),
                 line_level="generated line forms (%s), secret slot of %s symbolic characters, trailing context %r" % (
                     "base form of every pattern + seed-sampled variants" if tier == "quick" else "all each-choice forms of every pattern + harvested test templates",
-                    "2" if tier == "quick" else "2 (all forms), 1..3 (base forms), 4 (base forms of the first 36 patterns)", SUFFIXES))
+                    "2" if tier == "quick" else "2 (all forms), 1..3 (base forms), 4 (base forms of the first 36 patterns)", SUFFIXES),
+                hash_token_context="a $1$ / $9$ token with %s symbolic characters after the keywords %r in the context of %s" % (
+                    "2" if tier == "quick" else "2 (4 on the first 12 base forms)", KEYWORDS, "4 sampled forms" if tier == "quick" else "every base form"))
 
 
 def items(tier, seed):
@@ -95,7 +97,8 @@ def items(tier, seed):
     for idx in hsel:
         for kw in range(len(KEYWORDS) if tier == "thorough" else 1):
             for kind in ("md5", "j9"):
-                out.append(Item("C07", "hashctx", dict(form=idx, kw=kw, kind=kind, nsym=2 if tier == "quick" else 4), budget_s=400 if tier == "quick" else 2400,
+                # 4 symbolic characters cost 2-6 min per item (measured): thorough uses them on the first 12 base forms, 2 elsewhere
+                out.append(Item("C07", "hashctx", dict(form=idx, kw=kw, kind=kind, nsym=4 if (tier == "thorough" and idx in hsel[:12]) else 2), budget_s=400 if tier == "quick" else 2400,
                                 obligation="H4-hash-token-in-foreign-context"))
     if tier != "quick":
         bases = set(base.values())
